@@ -231,6 +231,12 @@ def collect(rep, prop, tier, seed, exe, configs=None, replay=None):
         hist["type=%s" % ITYS[m["t"]]] += 1
         hist["class=%s" % m["class"]] += 1
         hist["zero_extent" if 0 in m["es"] else "nonempty"] += 1
+    incoq_n = 0
+    if tier == "thorough" and not replay and not is_scaled():
+        import incoq
+        smp = [r for r in records if r.get("model_line")]
+        smp = random.Random(seed + 99).sample(smp, min(60, len(smp)))
+        incoq_n = incoq.cross_check(rep, prop, "M", [(r["toks"], r["model_line"]) for r in smp], os.path.join(work, "incoq"))
     # report: one violation per (field kind, layout), smallest case first
     flagged.sort(key=lambda x: size_of(x[0]))
     seen = set()
@@ -249,7 +255,7 @@ def collect(rep, prop, tier, seed, exe, configs=None, replay=None):
                 "stride permutations x {tight, one gap, all gaps}; every multi-index enumerated when the space has <= %d points, else corners + seeded interior points. "
                 "non-trivial = distinct (type, layout, extents, strides, padding) with rank >= 2, non-empty index space and a non-unit extent" % mapgen.ENUM_LIMIT,
         "programs": len(insts) * len(configs),
-        "instantiations": len(insts), "configurations": configs,
+        "instantiations": len(insts), "configurations": configs, "evaluated_inside_coq_too": incoq_n,
         "disagreements_checked": len(flagged),
         "input_distribution": dict(sorted(hist.items())),
         "samples": [{"case": "M " + " ".join(str(x) for x in r["toks"]), "instantiation": r["inst"].desc(), "model": r["model_line"][:300]}
